@@ -440,6 +440,7 @@ func init() {
 			c.Require("process_replays_refused_on_legacy_port")
 			c.Require("e2e_refused_copies_with_probe_deadline")
 			c.Require("e2e_replays_refused_after_runtime_resize")
+			c.Require("e2e_replays_with_altered_continuation_refused")
 			if c.Batch%2 == 0 {
 				c07Sequential(c)
 			} else {
